@@ -37,6 +37,10 @@ type Modules struct {
 	// converted nodes. To access the map, use the get/set/ClearEntryCache()
 	// thread-safe functions.
 	entryCache map[Node]*Entry
+	// inProgress is the set of groupings that ToEntry is currently
+	// converting. It is used to detect a grouping that (transitively) uses
+	// itself. It is protected by entryCacheMu.
+	inProgress map[*Grouping]bool
 	// mergedSubmodule is used to prevent re-parsing a submodule that has already
 	// been merged into a particular entity when circular dependencies are being
 	// ignored. The keys of the map are a string that is formed by concatenating
@@ -62,6 +66,7 @@ func NewModules() *Modules {
 		typeDict:        newTypeDictionary(),
 		mergedSubmodule: map[string]bool{},
 		entryCache:      map[Node]*Entry{},
+		inProgress:      map[*Grouping]bool{},
 		pathMap:         map[string]bool{},
 	}
 	return ms
@@ -455,6 +460,24 @@ func (ms *Modules) setEntryCache(n Node, e *Entry) {
 	ms.entryCacheMu.Lock()
 	defer ms.entryCacheMu.Unlock()
 	ms.entryCache[n] = e
+}
+
+// groupingInProgress reports whether ToEntry is currently converting g.
+func (ms *Modules) groupingInProgress(g *Grouping) bool {
+	ms.entryCacheMu.RLock()
+	defer ms.entryCacheMu.RUnlock()
+	return ms.inProgress[g]
+}
+
+// setGroupingInProgress records whether ToEntry is currently converting g.
+func (ms *Modules) setGroupingInProgress(g *Grouping, inProgress bool) {
+	ms.entryCacheMu.Lock()
+	defer ms.entryCacheMu.Unlock()
+	if inProgress {
+		ms.inProgress[g] = true
+	} else {
+		delete(ms.inProgress, g)
+	}
 }
 
 // ClearEntryCache clears the entryCache containing previously converted nodes
